@@ -392,8 +392,8 @@ func c08Check(in, obs string) string {
 				// a reference wrapping (see Gen) of a key of 9..8192 bytes must unwrap to it;
 				// anything else must be rejected
 				want := "M:err"
-				if len(data) >= 9 && len(data) <= 8192 && bytes.Equal(mu.a, refWrap(kek, data)) {
-					want = "M:ok:" + hx.H(data)
+				if d, ok := refUnwrap(kek, mu.a); ok {
+					want = "M:ok:" + hx.H(d)
 				}
 				if o[2] != want {
 					return "Unwrap of a foreign wrapping: got " + o[2][:min(len(o[2]), 12)] + " want " + want[:min(len(want), 12)]
@@ -429,8 +429,12 @@ func c08Check(in, obs string) string {
 				return "extended wrapping accepted"
 			}
 		case "raw":
-			if !bytes.Equal(mu.a, w) && !rejected {
-				return "foreign wrapping accepted"
+			want := "M:err"
+			if d, ok := refUnwrap(kek, mu.a); ok {
+				want = "M:ok:" + hx.H(d)
+			}
+			if o[2] != want {
+				return "Unwrap of a crafted wrapping: got " + o[2][:min(len(o[2]), 12)] + " want " + want[:min(len(want), 12)]
 			}
 		}
 	}
@@ -470,6 +474,67 @@ func refWrap(kek, data []byte) []byte {
 		out = append(out, r[i]...)
 	}
 	return out
+}
+
+// refW applies RFC 3394's W to an 8-byte integrity register and a payload
+// whose length is a multiple of 8 (crypto/aes only).
+func refW(kek, aiv, body []byte) []byte {
+	c, err := aes.NewCipher(kek)
+	if err != nil {
+		return nil
+	}
+	n := len(body) / 8
+	a := bytes.Clone(aiv)
+	r := bytes.Clone(body)
+	b := make([]byte, 16)
+	for j := 0; j <= 5; j++ {
+		for i := 1; i <= n; i++ {
+			copy(b, a)
+			copy(b[8:], r[8*(i-1):8*i])
+			c.Encrypt(b, b)
+			binary.BigEndian.PutUint64(a, binary.BigEndian.Uint64(b[:8])^uint64(n*j+i))
+			copy(r[8*(i-1):8*i], b[8:])
+		}
+	}
+	return append(a, r...)
+}
+
+// refUnwrap: RFC 3394 W^-1 followed by the RFC 5649 checks, restricted to the
+// window 24..8200 bytes the property fixes (crypto/aes only).
+func refUnwrap(kek, w []byte) ([]byte, bool) {
+	if len(w) < 24 || len(w) > 8200 || len(w)%8 != 0 {
+		return nil, false
+	}
+	c, err := aes.NewCipher(kek)
+	if err != nil {
+		return nil, false
+	}
+	n := len(w)/8 - 1
+	a := bytes.Clone(w[:8])
+	r := bytes.Clone(w[8:])
+	b := make([]byte, 16)
+	for j := 5; j >= 0; j-- {
+		for i := n; i >= 1; i-- {
+			binary.BigEndian.PutUint64(b, binary.BigEndian.Uint64(a)^uint64(n*j+i))
+			copy(b[8:], r[8*(i-1):8*i])
+			c.Decrypt(b, b)
+			copy(a, b[:8])
+			copy(r[8*(i-1):8*i], b[8:])
+		}
+	}
+	if binary.BigEndian.Uint32(a) != 0xA65959A6 {
+		return nil, false
+	}
+	mli := uint64(binary.BigEndian.Uint32(a[4:]))
+	if 8*((mli+7)/8) != uint64(len(r)) {
+		return nil, false
+	}
+	for _, x := range r[mli:] {
+		if x != 0 {
+			return nil, false
+		}
+	}
+	return r[:mli], true
 }
 
 // ---- generator ----
@@ -586,6 +651,46 @@ func sivLine(r *hx.Rng, api, v string, keyLen, ptLen, adLen int) string {
 	return fmt.Sprintf("C08|siv|%s|%s|%d|%s|%s|%s|%s", api, v, id, hx.H(key), hx.H(pt), hx.H(ad), mut)
 }
 
+// kwpCraft makes W(aiv || body) whose plaintext is structurally wrong in one
+// place (padding byte, length field, prefix constant): the checks behind
+// invertW that random corruption never reaches.
+func kwpCraft(r *hx.Rng, kek, data []byte) string {
+	n := len(data)
+	pad := (8 - n%8) % 8
+	body := append(bytes.Clone(data), make([]byte, pad)...)
+	aiv := make([]byte, 8)
+	binary.BigEndian.PutUint32(aiv, 0xA65959A6)
+	mli := uint32(n)
+	switch k := r.Intn(8); {
+	case k == 0 && pad > 0:
+		body[n+r.Intn(pad)] = byte(1 + r.Intn(255))
+	case k == 1 && pad > 0:
+		mli = uint32(n + 1 + r.Intn(pad)) // still a valid wrapping: of data || 0...
+	case k == 2:
+		d := 1 + r.Intn(7)
+		if (n-d+7)/8 == (n+7)/8 {
+			mli = uint32(n - d) // padding region now covers data bytes
+			if r.Chance(30) {
+				for i := n - d; i < n; i++ {
+					body[i] = 0 // ... which makes it the wrapping of a shorter key
+				}
+			}
+		} else {
+			mli = uint32(n - d)
+		}
+	case k == 3:
+		mli = uint32(n + 8)
+	case k == 4:
+		binary.BigEndian.PutUint32(aiv, hx.PickS(r, []uint32{0xA65959A7, 0xA6595900, 0x265959A6, 0}))
+	case k == 5:
+		mli = hx.PickS(r, []uint32{0, 0xffffffff, 0xfffffff8, 0x80000000 + uint32(n), 1 << 16})
+	case k == 6:
+		body[len(body)-1] ^= 0x80
+	}
+	binary.BigEndian.PutUint32(aiv[4:], mli)
+	return "raw:" + hx.H(refW(kek, aiv, body))
+}
+
 func kwpMut(r *hx.Rng, kek []byte, wLen int) string {
 	switch x := r.Intn(100); {
 	case x < 40:
@@ -618,6 +723,9 @@ func kwpLine(r *hx.Rng, kekLen, n int) string {
 	data := r.Bytes(n)
 	w := 8*((n+7)/8) + 8
 	mut := kwpMut(r, kek, w)
+	if (kekLen == 16 || kekLen == 32) && n >= 16 && n <= 8192 && r.Chance(35) {
+		mut = kwpCraft(r, kek, data)
+	}
 	if n < 16 || n > 8192 {
 		// Wrap refuses; feed Unwrap an RFC 5649 wrapping made with crypto/aes
 		// (sizes 9..15 are wrappings Unwrap's size window admits), or a damaged one
